@@ -51,6 +51,10 @@ def sentence_methods_called(w, fn):
 
 def run(chk):
     w = C.world_for(chk)
+    # this property is stated over tokens: the token iterator and the tokenized writer (all of C02) are part of its mechanism
+    from . import c02 as _c02
+    with chk.only(rules={"R02.1", "R02.2", "R02.4", "R02.5"}):
+        _c02.run(chk)
     from . import ctors as _acc
     _acc.accessors(chk, w, only=["vaporetto::sentence::"])
     for rid, txt in (("R15.1", "filters touch only boundaries (resp. tags); API surface"), ("R15.2", "single constant label, no read of boundary contents"),
